@@ -104,20 +104,43 @@ func insertAt(o *Obj, at int, from, to Val) {
 
 func inIvl(x int64, v ivl) bool { return v.lo <= x && x <= v.hi }
 
+// r18 names the rules of the range-set argument; C01 runs the same argument under its own rule id.
+var r18prefix = "R18"
+
+func r18(n string) string { return r18prefix + "." + n }
+
 func runC18(c *Ctx) {
 	p := c.RepoProg()
 	K := 3
 	if c.Tier == "thorough" {
 		K = 5
 	}
+	totalOb, totalOK, nWorlds := rangeSetProof(c, p, K)
+	if totalOb == 0 {
+		return
+	}
+	c.Extra["obligations"] = totalOb
+	c.Extra["discharged"] = totalOK
+	c.Extra["worlds"] = nWorlds
+	c.Extra["gap_bound_K"] = K
+	c.Trusted = append(c.Trusted, "go/ssa construction of AddRange, insertRange, AddLexTNode, Item.match",
+		"the abstract interpreter (checker/sx.go) and the window model of the slice",
+		"small-model property of difference constraints: comparisons between boundary±k with |k|<=K are decided by orderings with gap classes 1..K,>K",
+		"rune values fit in int32 with to+1 not overflowing (<= 0x10FFFF)")
+	c.Assumptions = append(c.Assumptions, "the set satisfies the invariant (sorted, disjoint, non-empty classes, all classes before index i end before `from`) when an iteration starts — established by induction: NewDisjunctRangeSet creates the empty set, every iteration preserves it (R18.1)")
+	c.Explanation = "Proof by loop invariant, discharged mechanically: INV(i,from,to) = the set is sorted, pairwise disjoint, non-empty; classes before i end before `from`; (set ∪ [from,to]) is unchanged; every old class and the consumed part of the new range is a union of classes. One iteration of AddRange's loop is interpreted abstractly (slice modelled as a window around index i with the three mutators store-element, store-.To, insertRange) in every ordering-with-gaps of the four boundaries from,to,class.From,class.To; in every world obligations O1-O4 must hold for the resulting window, and the loop may carry only from and i (O5). Initialisation, exit (append of the remainder iff from<=to), insertRange = insert-at, the AddLexTNode dispatch and Item.match = 'class ⊆ item range' complete the argument. Not covered: nothing of the property's statement; the argument is about the code, given go/ssa and the interpreter."
+}
+
+// rangeSetProof discharges the loop-invariant argument for DisjunctRangeSet (see the explanation of C18).
+func rangeSetProof(c *Ctx, p *Prog, K int) (totalOb, totalOK, nWorlds int) {
 	fn := p.Func(lexItemsPkg, "*DisjunctRangeSet.AddRange")
 	if fn == nil {
-		c.Undecided("R18.1", "AddRange", "function not found")
+		c.Undecided(r18("1"), "AddRange", "function not found")
 		return
 	}
 	hs := loopHeaders(fn)
 	if len(hs) != 1 {
-		c.Undecided("R18.1", "AddRange", fmt.Sprintf("expected exactly one loop, found %d", len(hs)))
+		c.Undecided(r18("1"), "AddRange", fmt.Sprintf("expected exactly one loop, found %d", len(hs)))
 		return
 	}
 	head := hs[0]
@@ -129,14 +152,13 @@ func runC18(c *Ctx) {
 		}
 	}
 	sort.Strings(carried)
-	totalOb, totalOK := 0, 0
 	count := func(ok bool) {
 		totalOb++
 		if ok {
 			totalOK++
 		}
 	}
-	c.Ob("R18.1", "AddRange: loop-carried variables", strings.Join(carried, ",") == "from,i", "loop carries "+strings.Join(carried, ",")+" (O5: `to` is never assigned; the set is only changed through the three mutators)", p.FnPos(fn))
+	c.Ob(r18("1"), "AddRange: loop-carried variables", strings.Join(carried, ",") == "from,i", "loop carries "+strings.Join(carried, ",")+" (O5: `to` is never assigned; the set is only changed through the three mutators)", p.FnPos(fn))
 	count(strings.Join(carried, ",") == "from,i")
 
 	// ---- one iteration, all orderings of the four boundaries ----
@@ -144,7 +166,6 @@ func runC18(c *Ctx) {
 	var fails []failure
 	var undec []failure
 	sigs := map[string]int{}
-	nWorlds := 0
 	cons := []ordConstraint{{"F", "TO", false}, {"A", "BT", false}}
 	orderWorlds([]string{"F", "TO", "A", "BT"}, cons, K, func(vals map[string]int64, desc string) {
 		nWorlds++
@@ -299,19 +320,19 @@ func runC18(c *Ctx) {
 	})
 	for i, f := range undec {
 		if i < 5 {
-			c.Undecided("R18.1", "AddRange iteration in world "+f.world, f.what, p.FnPos(fn))
+			c.Undecided(r18("1"), "AddRange iteration in world "+f.world, f.what, p.FnPos(fn))
 		}
 	}
 	for i, f := range fails {
 		if i < 8 {
-			c.Ob("R18.1", "AddRange iteration in world "+f.world, false, f.what, p.FnPos(fn))
+			c.Ob(r18("1"), "AddRange iteration in world "+f.world, false, f.what, p.FnPos(fn))
 		}
 	}
 	totalOb += len(undec)
-	c.Ob("R18.1", "AddRange: one iteration preserves the invariant", len(fails) == 0 && len(undec) == 0,
+	c.Ob(r18("1"), "AddRange: one iteration preserves the invariant", len(fails) == 0 && len(undec) == 0,
 		fmt.Sprintf("%d worlds (orderings of from,to,class.From,class.To with gaps 1..%d,>%d); %d distinct effect signatures (leaf cases); %d failed obligations, %d undecided worlds", nWorlds, K, K, len(sigs), len(fails), len(undec)), p.FnPos(fn))
 	if len(sigs) < 11 {
-		c.Undecided("R18.1", "vacuity", fmt.Sprintf("only %d distinct leaf cases exercised, the code has 11", len(sigs)))
+		c.Undecided(r18("1"), "vacuity", fmt.Sprintf("only %d distinct leaf cases exercised, the code has 11", len(sigs)))
 	}
 	sk := make([]string, 0, len(sigs))
 	for s := range sigs {
@@ -319,7 +340,7 @@ func runC18(c *Ctx) {
 	}
 	sort.Strings(sk)
 	for _, s := range sk {
-		c.Sample(map[string]any{"rule": "R18.1", "leaf_case_effects": s, "worlds": sigs[s]})
+		c.Sample(map[string]any{"rule": r18("1"), "leaf_case_effects": s, "worlds": sigs[s]})
 	}
 
 	// ---- initialisation and exit ----
@@ -329,18 +350,9 @@ func runC18(c *Ctx) {
 	// ---- what is fed to AddRange ----
 	checkAddLexTNode(c, p, count)
 	// ---- R18.4 / R01.2: an item moves on a class iff the class lies inside its range ----
-	checkItemMatch(c, p, "R18.4", K, count)
+	checkItemMatch(c, p, r18("4"), K, count)
 
-	c.Extra["obligations"] = totalOb
-	c.Extra["discharged"] = totalOK
-	c.Extra["worlds"] = nWorlds
-	c.Extra["gap_bound_K"] = K
-	c.Trusted = append(c.Trusted, "go/ssa construction of AddRange, insertRange, AddLexTNode, Item.match",
-		"the abstract interpreter (checker/sx.go) and the window model of the slice",
-		"small-model property of difference constraints: comparisons between boundary±k with |k|<=K are decided by orderings with gap classes 1..K,>K",
-		"rune values fit in int32 with to+1 not overflowing (<= 0x10FFFF)")
-	c.Assumptions = append(c.Assumptions, "the set satisfies the invariant (sorted, disjoint, non-empty classes, all classes before index i end before `from`) when an iteration starts — established by induction: NewDisjunctRangeSet creates the empty set, every iteration preserves it (R18.1)")
-	c.Explanation = "Proof by loop invariant, discharged mechanically: INV(i,from,to) = the set is sorted, pairwise disjoint, non-empty; classes before i end before `from`; (set ∪ [from,to]) is unchanged; every old class and the consumed part of the new range is a union of classes. One iteration of AddRange's loop is interpreted abstractly (slice modelled as a window around index i with the three mutators store-element, store-.To, insertRange) in every ordering-with-gaps of the four boundaries from,to,class.From,class.To; in every world obligations O1-O4 must hold for the resulting window, and the loop may carry only from and i (O5). Initialisation, exit (append of the remainder iff from<=to), insertRange = insert-at, the AddLexTNode dispatch and Item.match = 'class ⊆ item range' complete the argument. Not covered: nothing of the property's statement; the argument is about the code, given go/ssa and the interpreter."
+	return totalOb, totalOK, nWorlds
 }
 
 // parseSymTerm turns a rendered "NAME", "NAME+k" or "NAME-k" back into a value.
@@ -369,7 +381,7 @@ func checkAddRangeEnds(c *Ctx, p *Prog, fn *ssa.Function, head *ssa.BasicBlock, 
 	out := InterpretSafe(reg, &MapWorld{})
 	ok := out.Term == "cut:"+head.Comment && out.NextPhi["i"] == "0" && out.NextPhi["from"] == "F" && len(out.Events) == 0
 	count(ok)
-	c.Ob("R18.1", "AddRange: initialisation", ok, fmt.Sprintf("entry reaches the loop with i=%s from=%s, events %v (required: i=0, from unchanged, no effect)", out.NextPhi["i"], out.NextPhi["from"], out.Events), p.FnPos(fn))
+	c.Ob(r18("1"), "AddRange: initialisation", ok, fmt.Sprintf("entry reaches the loop with i=%s from=%s, events %v (required: i=0, from unchanged, no effect)", out.NextPhi["i"], out.NextPhi["from"], out.Events), p.FnPos(fn))
 	// exit
 	for _, wd := range []struct {
 		name       string
@@ -404,7 +416,7 @@ func checkAddRangeEnds(c *Ctx, p *Prog, fn *ssa.Function, head *ssa.BasicBlock, 
 			ok = ok && appended == "" && len(out.Stores) == 0
 		}
 		count(ok)
-		c.Ob("R18.1", "AddRange: exit, "+wd.name, ok, fmt.Sprintf("term=%s appended=%q stores=%v undecided=%q (required: the remainder [from,to] is appended iff from<=to; valid because by the invariant every class ends before from when i=len)", out.Term, appended, out.Stores, out.Undecided), p.FnPos(fn))
+		c.Ob(r18("1"), "AddRange: exit, "+wd.name, ok, fmt.Sprintf("term=%s appended=%q stores=%v undecided=%q (required: the remainder [from,to] is appended iff from<=to; valid because by the invariant every class ends before from when i=len)", out.Term, appended, out.Stores, out.Undecided), p.FnPos(fn))
 	}
 }
 
@@ -436,7 +448,7 @@ func (r *Run) describeVarargs(v Val) string {
 func checkInsertRange(c *Ctx, p *Prog, count func(bool)) {
 	fn := p.Func(lexItemsPkg, "*DisjunctRangeSet.insertRange")
 	if fn == nil {
-		c.Undecided("R18.2", "insertRange", "function not found")
+		c.Undecided(r18("2"), "insertRange", "function not found")
 		return
 	}
 	for _, wd := range []struct {
@@ -469,7 +481,7 @@ func checkInsertRange(c *Ctx, p *Prog, count func(bool)) {
 		}
 		ok := out.Term == "return" && strings.Join(evs, ";") == strings.Join(want, ";") && fmt.Sprint(out.Stores) == fmt.Sprint(wantStores)
 		count(ok)
-		c.Ob("R18.2", "insertRange: "+wd.name, ok, fmt.Sprintf("effects %v stores %v %s; required %v %v (grow by one, shift [at,len) up by one, write the new class at `at`)", evs, out.Stores, out.Undecided, want, wantStores), p.FnPos(fn))
+		c.Ob(r18("2"), "insertRange: "+wd.name, ok, fmt.Sprintf("effects %v stores %v %s; required %v %v (grow by one, shift [at,len) up by one, write the new class at `at`)", evs, out.Stores, out.Undecided, want, wantStores), p.FnPos(fn))
 	}
 }
 
@@ -488,7 +500,7 @@ func astType(p *Prog, name string) types.Type {
 func checkAddLexTNode(c *Ctx, p *Prog, count func(bool)) {
 	fn := p.Func(lexItemsPkg, "*DisjunctRangeSet.AddLexTNode")
 	if fn == nil {
-		c.Undecided("R18.3", "AddLexTNode", "function not found")
+		c.Undecided(r18("3"), "AddLexTNode", "function not found")
 		return
 	}
 	for _, wd := range []struct {
@@ -502,7 +514,7 @@ func checkAddLexTNode(c *Ctx, p *Prog, count func(bool)) {
 	} {
 		T := astType(p, wd.ty)
 		if T == nil {
-			c.Undecided("R18.3", "AddLexTNode: "+wd.ty, "type not found")
+			c.Undecided(r18("3"), "AddLexTNode: "+wd.ty, "type not found")
 			continue
 		}
 		var evs []string
@@ -524,18 +536,18 @@ func checkAddLexTNode(c *Ctx, p *Prog, count func(bool)) {
 		got := strings.Join(evs, ";")
 		ok := out.Term == "return" && got == wd.want
 		count(ok)
-		c.Ob("R18.3", "AddLexTNode: "+wd.ty, ok, fmt.Sprintf("term=%s effects=%q %s; required %q", out.Term, got, out.Undecided, wd.want), p.FnPos(fn))
+		c.Ob(r18("3"), "AddLexTNode: "+wd.ty, ok, fmt.Sprintf("term=%s effects=%q %s; required %q", out.Term, got, out.Undecided, wd.want), p.FnPos(fn))
 	}
 	// any other dynamic type must not be silently accepted
 	// getSymbolClasses feeds the expected symbol of every non-reduce item
 	gfn := p.Func(lexItemsPkg, "*ItemSet.getSymbolClasses")
 	if gfn == nil {
-		c.Undecided("R18.3", "getSymbolClasses", "function not found")
+		c.Undecided(r18("3"), "getSymbolClasses", "function not found")
 		return
 	}
 	hs := loopHeaders(gfn)
 	if len(hs) != 1 {
-		c.Undecided("R18.3", "getSymbolClasses", "expected one loop")
+		c.Undecided(r18("3"), "getSymbolClasses", "expected one loop")
 		return
 	}
 	for _, reduce := range []bool{false, true} {
@@ -568,7 +580,7 @@ func checkAddLexTNode(c *Ctx, p *Prog, count func(bool)) {
 		got := strings.Join(evs, ";")
 		ok := strings.HasPrefix(out.Term, "cut:") && got == want
 		count(ok)
-		c.Ob("R18.3", fmt.Sprintf("getSymbolClasses: item.Reduce=%v", reduce), ok, fmt.Sprintf("term=%s effects=%q %s; required %q", out.Term, got, out.Undecided, want), p.FnPos(gfn))
+		c.Ob(r18("3"), fmt.Sprintf("getSymbolClasses: item.Reduce=%v", reduce), ok, fmt.Sprintf("term=%s effects=%q %s; required %q", out.Term, got, out.Undecided, want), p.FnPos(gfn))
 	}
 }
 
